@@ -1766,23 +1766,38 @@ func main() {
 	}
 	cw.Exhaust = true
 	cw.Extra["exhaustive_scope"] = fmt.Sprintf("every subset of released caches for 1..%d caches sharing a cleaner (every release order for <= 3 caches)", maxN)
-	for i := 0; i < nRebuild; i++ {
-		genRebuild(r, cw)
+	// the payload-rebuild cases (200..260 entries each: a few seconds of model evaluation per case) are spread evenly
+	// over the other streams, so that they do not all land in one case file (files are evaluated in parallel)
+	total, emitted, rebuilt := nRetry+nPass+nSeq/4+nSeq+nConc, 0, 0
+	tick := func() {
+		emitted++
+		for rebuilt < nRebuild && rebuilt*total < emitted*nRebuild {
+			rebuilt++
+			genRebuild(r, cw)
+		}
 	}
 	for i := 0; i < nRetry; i++ {
 		genRetry(r, cw)
+		tick()
 	}
 	for i := 0; i < nPass; i++ {
 		genPassWindow(r, cw)
+		tick()
 	}
 	for i := 0; i < nSeq/4; i++ {
 		genBoundary(r, cw)
+		tick()
 	}
 	for i := 0; i < nSeq; i++ {
 		genRandom(r, cw, false)
+		tick()
 	}
 	for i := 0; i < nConc; i++ {
 		genRandom(r, cw, true)
+		tick()
+	}
+	for ; rebuilt < nRebuild; rebuilt++ {
+		genRebuild(r, cw)
 	}
 	if err := cw.Close(); err != nil {
 		panic(err)
